@@ -76,7 +76,12 @@ pub fn fm_version(cfg: &Config) -> full_moon::LuaVersion {
 }
 
 pub fn fm_parse(src: &str, cfg: &Config) -> Result<full_moon::ast::Ast, String> {
-    full_moon::parse_fallible(src, fm_version(cfg)).into_result().map_err(|e| e.iter().map(|x| x.to_string()).collect::<Vec<_>>().join("; "))
+    // the parser itself can panic on some invalid texts (full_moon 1.2.0, parsers.rs:1818 on `(& A | (B & C) & D)`):
+    // for the harness' own independent parse that is simply "does not parse"
+    match panic::catch_unwind(panic::AssertUnwindSafe(|| full_moon::parse_fallible(src, fm_version(cfg)).into_result())) {
+        Ok(r) => r.map_err(|e| e.iter().map(|x| x.to_string()).collect::<Vec<_>>().join("; ")),
+        Err(_) => Err("the parser panicked".to_string()),
+    }
 }
 
 pub enum Outcome {
